@@ -378,6 +378,11 @@ class Context:
                     )
                     del self._plugin_class_registry[d]
 
+        if not all(p.startswith(TEMP_DATA_TYPE_PREFIX) for p in plugin_class.provides):
+            # Plugins built from the previous registry (other class, defaults
+            # or dependencies under the same names) must not be reused
+            self._fixed_plugin_cache = None
+
         already_seen = []
         for plugin in self._plugin_class_registry.values():
             if plugin in already_seen:
